@@ -386,7 +386,7 @@ func (g *FnGen) applyContract(fc *FuncContract, pc *PkgContracts, c *ssa.CallCom
 	}
 	// may-panic of the callee becomes a safety obligation here
 	for k, mp := range fc.MayPanic {
-		g.safety(fmt.Sprintf("callee-panic/%s#%d/%d", short, n, k), "(not "+env.trBool(mp.E)+")", "callee may panic when "+mp.Src, pos)
+		g.safetyX(fmt.Sprintf("callee-panic/%s#%d/%d", short, n, k), "(not "+env.trBool(mp.E)+")", "callee may panic when "+mp.Src, pos, false)
 	}
 	// frame
 	g.bumpAlloc()
